@@ -56,6 +56,8 @@ impl<'a> ZoneWriter<'a> {
         // Write .zones metadata (delegated, async)
         let metadata_writer = ZoneMetadataWriter::new(self.uid, self.segment_dir);
         metadata_writer.write_async(zone_plans).await?;
+        #[cfg(sneldb_verif)]
+        crate::verif::step("zonewriter.zones_written", &format!("\"uid\":\"{}\"", self.uid));
 
         // Write .col files
         let mut writer = ColumnWriter::new(self.segment_dir.to_path_buf(), self.registry.clone());
@@ -70,6 +72,8 @@ impl<'a> ZoneWriter<'a> {
             );
         }
         writer.write_all(zone_plans).await?;
+        #[cfg(sneldb_verif)]
+        crate::verif::step("zonewriter.columns_written", &format!("\"uid\":\"{}\"", self.uid));
 
         // Build plan: decide which indexes to build per field/global
         let schema = self
